@@ -7,7 +7,7 @@
 //!   c14 --tier quick|thorough [--depth N] [--only "ext=1 cached=0 nodes=1 late=0"] [--jobs N]
 //!   c14 --replay <file>       re-runs exactly one history and prints the wire trace
 
-use h_mock::c14_model::{Cfg, Ev, Viol, World};
+use h_mock::c14_model::{Cfg, Ev, SetupFail, Viol, World};
 use serde_json::json;
 use std::sync::atomic::Ordering;
 use std::time::{Duration, Instant};
@@ -24,17 +24,30 @@ fn encode(v: Viol) -> String {
     format!("{}|{}", v.key, v.text)
 }
 
+/// A world, or the reason why the DRIVER failed while it was set up (then every history, the empty one first, violates).
+struct Slot {
+    w: Option<World>,
+    broken: Option<Viol>,
+}
+
 impl Model for M<'_> {
     type Event = Ev;
-    type Obj = World;
-    fn init(&self) -> World {
+    type Obj = Slot;
+    fn init(&self) -> Slot {
         self.r.traces_validated.fetch_add(1, Ordering::Relaxed);
-        World::new(self.cfg).unwrap_or_else(|e| vcore::machinery_error(&format!("C14 world did not come up ({}): {e}", self.cfg.name())))
+        match World::new(self.cfg) {
+            Ok(w) => Slot { w: Some(w), broken: None },
+            Err(SetupFail::Violation(v)) => Slot { w: None, broken: Some(v) },
+            Err(SetupFail::Machinery(e)) => vcore::machinery_error(&format!("C14 world did not come up ({}): {e}", self.cfg.name())),
+        }
     }
-    fn enabled(&self, w: &World) -> Vec<Ev> {
-        w.enabled(self.max_version)
+    fn enabled(&self, s: &Slot) -> Vec<Ev> {
+        s.w.as_ref().map(|w| w.enabled(self.max_version)).unwrap_or_default()
     }
-    fn apply(&self, w: &mut World, ev: &Ev) -> Result<(), String> {
+    fn apply(&self, s: &mut Slot, ev: &Ev) -> Result<(), String> {
+        let Some(w) = s.w.as_mut() else {
+            return Err(encode(s.broken.clone().unwrap()));
+        };
         let res = w.apply(*ev).map_err(encode);
         self.r.eval(1);
         for b in w.branches.drain(..) {
@@ -46,8 +59,17 @@ impl Model for M<'_> {
         }
         res
     }
-    fn canon(&self, w: &World) -> Vec<u8> {
-        w.canon()
+    fn check(&self, s: &Slot) -> Result<(), String> {
+        match &s.broken {
+            Some(v) => {
+                self.r.eval(1);
+                Err(encode(v.clone()))
+            }
+            None => Ok(()),
+        }
+    }
+    fn canon(&self, s: &Slot) -> Vec<u8> {
+        s.w.as_ref().map(|w| w.canon()).unwrap_or_else(|| b"broken".to_vec())
     }
 }
 
@@ -61,9 +83,17 @@ fn replay(r: &Report, case: &serde_json::Value) {
         .as_array()
         .map(|a| a.iter().map(|e| Ev::parse(e.as_str().unwrap_or("")).unwrap_or_else(|| vcore::machinery_error(&format!("bad event {e}")))).collect())
         .unwrap_or_default();
-    let mut w = World::new(cfg).unwrap_or_else(|e| vcore::machinery_error(&e));
-    w.verbose = true;
     println!("config: {}", cfg.name());
+    let mut w = match World::new(cfg) {
+        Ok(w) => w,
+        Err(SetupFail::Violation(v)) => {
+            println!("set-up: [{}] {}", v.key, v.text);
+            r.violation(&v.key, &v.text, case.clone());
+            return;
+        }
+        Err(SetupFail::Machinery(e)) => vcore::machinery_error(&e),
+    };
+    w.verbose = true;
     let mut bad = None;
     for (i, ev) in events.iter().enumerate() {
         if let Err(v) = w.apply(*ev) {
@@ -170,6 +200,12 @@ fn main() {
             r.sample(case_json(&cfg, h));
         }
         for v in &res.violations {
+            // a set-up violation (driver failed although the mock answered) can also surface while a prefix is rebuilt
+            let what = match v.what.strip_prefix("REPLAY-DIVERGENCE: ") {
+                Some(rest) if rest.starts_with("setup:") => rest.to_string(),
+                _ => v.what.clone(),
+            };
+            let v = &vcore::bfs::BfsViolation { history: v.history.clone(), what };
             let (key, text) = match v.what.split_once('|') {
                 Some((k, t)) if !v.what.starts_with("REPLAY-DIVERGENCE") => (k.to_string(), t.to_string()),
                 _ => {
